@@ -1604,6 +1604,17 @@ func (x *Exec) doReturn(st *State, fr *Frame, r *ssa.Return) (stop bool) {
 			x.callSite(st, caller, fr.afterKind, fr.afterCallee, fr.afterArgs, rets, "after", fr.afterSite)
 		}
 		if fr.cbEffect != nil {
+			if x.fc != nil && len(x.fc.OnCbReturn) > 0 && len(st.frames) >= 1 {
+				// the callback frame is put back for the evaluation: its variables come first
+				st.frames = append(st.frames, fr)
+				env := x.envFor(st, st.frames[0])
+				env.old = x.entry
+				x.bindResults(env, fr.fn.Signature, rets)
+				for k, c := range x.fc.OnCbReturn {
+					x.proveClause(st, env, c, fmt.Sprintf("%s/on-callback-return:%s", x.fname, labelOr(c.Label, k)), "on-callback-return", "return of "+fr.fn.Name()+" (callback of "+fr.cbCallee+")")
+				}
+				st.frames = st.frames[:len(st.frames)-1]
+			}
 			// end of the callback invocation: further invocations may follow, then the callee returns
 			x.havocEffect(st, caller, fr.cbEffect)
 			x.havocCaptured(st, fr.cbClosure)
@@ -1611,7 +1622,7 @@ func (x *Exec) doReturn(st *State, fr *Frame, r *ssa.Return) (stop bool) {
 			for i, rt := range fr.cbResTypes {
 				outs = append(outs, x.freshVal(st, rt, fmt.Sprintf("ret!%s!%d", shortName(fr.cbCallee), i)))
 			}
-			x.setRet(st, caller, fr.cbRetTo, outs, -1)
+			x.setRet(st, caller, fr.cbRetTo, outs, fr.cbEvent)
 		}
 		return false
 	}
